@@ -759,6 +759,39 @@ func runC14Sequential(t *fw.T) {
 					break
 				}
 			}
+			// ... and of trees that hold a plugin's own statement nodes, which write what they like - also blanks, a comment
+			// that ends its line, a line break at either end of the output
+			if !bad {
+				for _, raw := range []string{"//keep\n", "\n/*lead*/ x;", "pragma;\t", " ", "\n", "x;\r\n", "\ty;  "} {
+					for _, atEnd := range []bool{true, false} {
+						stmts := append([]ast.Statement{}, prog.Statements...)
+						if atEnd {
+							stmts = append(stmts, &rawStatement{raw})
+						} else {
+							stmts = append([]ast.Statement{&rawStatement{raw}}, stmts...)
+						}
+						pp := &ast.Program{Statements: stmts}
+						d := debug.ToString(pp)
+						t.Count("debug_strings_of_programs_with_plugin_statement_nodes_compared", 1)
+						for _, cfg := range []Cfg{CfgCompact, {Map: true}} {
+							if c := cfg.Compile(pp).Code; d != c {
+								t.Violate("debug-string-differs-from-compact", "program with a plugin's statement node", fmt.Sprintf("debug.ToString(program) differs from the compact compilation (%s) of a program whose plugin node writes %q: %s", cfg, raw, firstDiff(c, d)), map[string]any{"plugin_node_writes": raw, "at_end": atEnd})
+								bad = true
+							}
+						}
+						if d1, c1 := debug.ToString(&rawStatement{raw}), CfgCompact.Compile(&ast.Program{Statements: []ast.Statement{&rawStatement{raw}}}).Code; d1 != c1 {
+							t.Violate("debug-string-differs-from-compact", "plugin's statement node", fmt.Sprintf("debug.ToString(node) differs from the compact compilation of a plugin node that writes %q: %s", raw, firstDiff(c1, d1)), nil)
+							bad = true
+						}
+						if bad {
+							break
+						}
+					}
+					if bad {
+						break
+					}
+				}
+			}
 		})
 		if bad {
 			return
@@ -1204,8 +1237,122 @@ func runC14Sequential(t *fw.T) {
 			return
 		}
 	}
+	checkLateRegistrations(t, r)
+	checkForeignOperatorLevels(t, r)
 	checkPackageTables(t)
 	t.Distinct(fmt.Sprint("seq", idxs))
+}
+
+// atBuilder: a parser builder whose lexer issues '@' as a registered token type.
+func atBuilder() (*parser.Builder, token.Type) {
+	lb := lexer.NewBuilder()
+	at := lb.RegisterTokenType("op@")
+	lb.UseTokenInterceptor(func(l *lexer.Lexer, next func() token.Token) token.Token {
+		if l.CurrentChar == '@' {
+			tok := l.NewToken(at, "@")
+			l.ReadChar()
+			return tok
+		}
+		return next()
+	})
+	return parser.NewBuilder(lb), at
+}
+
+func outcome(p *parser.Parser) string {
+	prog, err := p.ParseProgram()
+	var sb strings.Builder
+	for _, e := range p.Errors() {
+		fmt.Fprintf(&sb, "%s@%v;", e.Message, e.Range.Start)
+	}
+	if err == nil && prog != nil {
+		sb.WriteString(" => " + CfgCompact.Compile(prog).Code)
+	}
+	return sb.String()
+}
+
+// checkLateRegistrations: one builder builds many independent parsers - a parser that was built (not yet run) before
+// the builder got another operator, interceptor or mode, and before the builder built further parsers, gives the result
+// of a parser built from a builder that never saw the later calls. The texts use the tokens the late operators sit on.
+func checkLateRegistrations(t *fw.T, r *rand.Rand) {
+	srcs := []string{"a\n!b\nc", "x = a @ b", "f(a)\n@b", "a !\nb", "let k = 1 @ 2 ! 3", "p % q\n!r", "a ! b", "n!", "@a"}
+	src := srcs[r.IntN(len(srcs))]
+	role := r.IntN(5)
+	t.Guard("late registration", func() map[string]any { return map[string]any{"source": src, "late_role": role} }, func() {
+		refB, _ := atBuilder()
+		want := outcome(refB.Build(src))
+		pb, at := atBuilder()
+		early := []*parser.Parser{pb.Build(src), pb.Build(src)}
+		bin := func(tok token.Token, l ast.Expression, rr func() ast.Expression) ast.Expression {
+			return &ast.BinaryExpression{Token: tok, Left: l, Operator: tok.Literal, Right: rr()}
+		}
+		post := func(tok token.Token, l ast.Expression) ast.Expression {
+			return &cPostfix{Tok: tok, Op: tok.Literal, X: l}
+		}
+		pre := func(tok token.Token, rr func() ast.Expression) ast.Expression {
+			return &cPrefix{Tok: tok, Op: tok.Literal, X: rr()}
+		}
+		switch role {
+		case 0:
+			pb.RegisterInfixOperator(token.NOT, 4+r.IntN(8), bin)
+		case 1:
+			pb.RegisterPostfixOperator(token.NOT, post)
+		case 2:
+			pb.RegisterInfixOperator(at, 4+r.IntN(8), bin)
+		case 3:
+			pb.RegisterPostfixOperator(at, post)
+		default:
+			pb.RegisterPrefixOperator(at, pre)
+			pb.RegisterInfixOperator(at, 9, bin)
+		}
+		// the builder goes on building and its later parsers run first
+		for i := 0; i < 2; i++ {
+			pb.Build("u ! v @ w\n@z!").ParseProgram()
+		}
+		for i, p := range early {
+			got := outcome(p)
+			t.Count("parsers_run_after_their_builder_got_more_operators_and_built_again", 1)
+			if got != want {
+				t.Violate("later-registration-reaches-built-parser", fmt.Sprintf("role %d", role), fmt.Sprintf("a parser built before its builder registered another operator and built further parsers gives %q, a parser of an identical builder without that history gives %q (source %q, parser #%d)", clip(got, 200), clip(want, 200), src, i+1),
+					map[string]any{"source": src, "late_role": role})
+				return
+			}
+		}
+	})
+}
+
+// checkForeignOperatorLevels: a tree with operator nodes of a plugin (ast.BinaryExpression carrying the plugin's token)
+// prints the same before and after an unrelated builder - whose lexer builder hands out the same dynamic token ids -
+// registers operators at other levels and is used.
+func checkForeignOperatorLevels(t *fw.T, r *rand.Rand) {
+	bin := func(tok token.Token, l ast.Expression, rr func() ast.Expression) ast.Expression {
+		return &ast.BinaryExpression{Token: tok, Left: l, Operator: "??", Right: rr()}
+	}
+	t.Guard("foreign operator levels", nil, func() {
+		pa, at := atBuilder()
+		la := 2 + r.IntN(12)
+		pa.RegisterInfixOperator(at, la, bin)
+		prog, err := pa.Build("let r = a @ b + c * d\nr = (a @ b) @ c - (d + e @ f)\ng(a @ -b, !c @ d)").ParseProgram()
+		if err != nil {
+			return
+		}
+		shot := func() string {
+			return strings.Join(compileAll(prog, []Cfg{CfgCompact, CfgPretty, CfgPrettyTabN, {Map: true}}), "\x00") + "\x00" + debug.ToString(prog)
+		}
+		before := shot()
+		pb2, at2 := atBuilder()
+		lb := 2 + r.IntN(12)
+		pb2.RegisterInfixOperator(at2, lb, bin)
+		pb2.RegisterPrefixOperator(at2, func(tok token.Token, rr func() ast.Expression) ast.Expression {
+			return &cPrefix{Tok: tok, Op: "@", X: rr()}
+		})
+		if p2, err := pb2.Build("x = @a @ b * c").ParseProgram(); err == nil {
+			CfgPretty.Compile(p2)
+		}
+		t.Count("trees_with_plugin_operator_nodes_reprinted_after_foreign_registrations", 1)
+		if after := shot(); after != before {
+			t.Violate("recompilation-differs", "after another builder registered the same token id", fmt.Sprintf("a tree with ast.BinaryExpression nodes of a registered operator (level %d) prints differently after an unrelated builder registered an operator with the same dynamic token id at level %d: %s", la, lb, firstDiff(before, after)), map[string]any{"level": la, "foreign_level": lb})
+		}
+	})
 }
 
 // editTriviaInPlace overwrites every entry of every token's LeadingComments in the tree (no slice is re-allocated).
@@ -1378,3 +1525,8 @@ func init() {
 		},
 	})
 }
+
+// rawStatement is a statement node of a plugin's own: it writes its text as it is.
+type rawStatement struct{ Text string }
+
+func (n *rawStatement) WriteTo(cw *ast.CodeWriter) { cw.WriteString(n.Text) }
